@@ -98,6 +98,15 @@ class Gen:
                 out.append((ins, outs[:p] + [t] + outs[p + 1:], var, f'cb-size-out:{p}'))
         for p in range(len(outs) + 1):
             out.append((ins, outs[:p] + [rng.choice(['int', 'err', 'i8', 'sl'])] + outs[p:], var, 'cb-count-out'))
+        # a type that PRINTS like the slot's type but is another type of another size (local shadow / same-named package)
+        for p, t in enumerate(ins):
+            if t == 'dup':
+                for alt in ('dupl', 'dupp'):
+                    out.append((ins[:p] + [alt] + ins[p + 1:], outs, var, f'cb-size-in:{p}'))
+        for p, t in enumerate(outs):
+            if t == 'dup':
+                for alt in ('dupl', 'dupp'):
+                    out.append((ins, outs[:p] + [alt] + outs[p + 1:], var, f'cb-size-out:{p}'))
         return out
 
     def ret_cases(self, outs):
@@ -343,8 +352,48 @@ class Gen:
                     self.add(f'{head_of(0)} {firsts[0]} ; again ; apply {oka} {okr} 0 ; when {lst(ins[:1])}', 'when-few')
                 self.add(f'{head_of(0)} {firsts[0]} ; again ; apply {oka} {okr} 0 ; when {oka} ; return {okr}', 'accept')
 
+        def same_name_pairs(head, cbins, outs, var):
+            """a well-formed Apply, then (same process, same mocker or a repeated lookup) a callback whose func type prints the same"""
+            good = f'apply {lst(cbins)} {lst(outs)} {int(var)}'
+            for (ci, co, cv, tag) in self.cb_mistakes(cbins, outs, var):
+                if 'dupl' in ci + co or 'dupp' in ci + co:
+                    bad = f'apply {lst(ci)} {lst(co)} {int(bool(cv))}'
+                    self.add(f'{head} {good} ; {bad}', tag)
+                    self.add(f'{head} {good} ; again ; {bad}', tag)
+                    if outs:
+                        self.add(f'{head} return {lst(outs)} ; again ; {bad}', tag)
+
+        def variadic_follow(head, ins, outs):
+            """later When/In/Matches on a variadic target: fewer conditions than FIXED parameters must be rejected"""
+            fixed, okr = ins[:-1], lst(outs)
+            first = f'return {okr}'
+            for via in ('', 'again ; '):
+                for k in range(len(fixed)):
+                    few = lst(fixed[:k])
+                    self.add(f'{head} {first} ; {via}when {few}', 'seq-when-few')
+                    if k > 0:
+                        self.add(f'{head} {first} ; matches {few}={okr}', 'seq-matches-few')
+                        self.add(f'{head} {first} ; matches {lst(fixed + ["int"])}={okr}|{few}={okr}', 'seq-matches-few')
+                        if len(fixed) >= 2:
+                            self.add(f'{head} {first} ; in {lst(fixed + ["int"])}|{few}', 'seq-in-few')
+                            self.add(f'{head} {first} ; in {few}|{few}', 'seq-in-few')
+                for extra in ([], ['int'], ['int', 'int']):
+                    ok = lst(fixed + extra)
+                    self.add(f'{head} {first} ; {via}when {ok} ; return {okr}', 'accept')
+                    if len(fixed) >= 2:
+                        self.add(f'{head} {first} ; in {ok}|{lst(fixed + ["int"])}', 'accept')
+                    self.add(f'{head} {first} ; matches {ok}={okr}', 'accept')
+                for p_, t in enumerate(fixed):
+                    b = val_bad_size(t, rng)
+                    if b:
+                        self.add(f'{head} {first} ; {via}when {lst(fixed[:p_] + [b] + fixed[p_ + 1:] + ["int"])}', f'seq-when-size:{p_}')
+                self.add(f'{head} {first} ; {via}when {lst(fixed + ["str"])}', f'seq-when-size:{len(fixed)}')
+
         for name, (ins, outs, var) in Z.FUNCS.items():
             emit(lambda pre, name=name, ins=ins, outs=outs, var=var: f'seqf {name} {lst(ins)} {lst(outs)} {int(var)} {pre}', ins, outs, var, [0, 0, 1])
+            same_name_pairs(f'seqf {name} {lst(ins)} {lst(outs)} {int(var)} 0', ins, outs, var)
+            if var and outs and len(ins) > 1:
+                variadic_follow(f'seqf {name} {lst(ins)} {lst(outs)} {int(var)} 0', ins, outs)
         for name, (ins0, outs, var) in Z.METHODS.items():
             full = ['prc'] + ins0
             hm = f'seqm {name} {lst(full)} {lst(outs)} {int(var)}'
@@ -365,6 +414,9 @@ class Gen:
                         self.add(f'{hm} {rng.choice(firsts)} ; {st}', tag)
                         self.add(f'{hm} {rng.choice(firsts)} ; again ; {st}', tag)
             emit_m()
+            same_name_pairs(hm, full, outs, var)
+            if var and outs and len(ins0) > 1:
+                variadic_follow(hm, ins0, outs)
         for name, (mins, mouts) in Z.IMETHODS.items():
             full = ['ictx'] + mins
             hi = f'seqi {name} {INAMES} {lst(mins)} {lst(mouts)} {lst(full)} {lst(mouts)}'
@@ -632,6 +684,7 @@ def build_probe():
         open(zoo, 'w').write(new)
     helpers = C.helper_pkgs()
     helpers['internal/patch'] = {'zz_verif_c13_export.go': os.path.join(C.HARNESS, 'c13', 'patch_export.go')}
+    helpers['internal/zzverif/alt/mocker'] = {'alt.go': os.path.join(C.HARNESS, 'c13', 'altmocker', 'alt.go')}
     b, err = C.overlay_build('c13', '', {'zz_verif_c13_test.go': os.path.join(C.HARNESS, 'c13', 'probe_test.go'),
                                          'zz_verif_c13_zoo_test.go': zoo}, helpers)
     if b is None:
@@ -687,17 +740,27 @@ def run(tier):
         r = oracle(op, tags[i], impl[i])
         if r:
             bad.append((i, op, r[0], r[1]))
-    shown = {}
+    by_key = {}
     for i, op, why, key in bad:
-        if key in shown:
-            shown[key][1] += 1
-            continue
-        shown[key] = [i, 1]
-    for key, (i, n) in list(shown.items())[:5]:
-        _, op, why, _ = next(b for b in bad if b[0] == i)
-        out.violation(f'{op}: {why} ({n} generated calls of this kind)',
-                      {'kind': 'impl-oracle', 'ops': [op], 'tags': [tags[i]], 'observed': impl[i], 'why': why, 'finding_key': key,
-                       'same_kind': [ops[j] for j, _, _, k in bad if k == key][:10],
+        by_key.setdefault(key, []).append((i, op, why))
+    binary = build_probe() if by_key else None
+    for key, items in list(by_key.items())[:5]:
+        # the replay must reproduce in a fresh process: ops of one run share a process (goom caches, earlier patches), so try the
+        # self-contained sequence forms first and keep the first candidate that still fails when it is run alone
+        cands = sorted(items, key=lambda it: 0 if it[1].split()[1].startswith(('seq', 'rt')) else 1)[:6]
+        chosen, alone = None, None
+        for (i, op, why) in cands:
+            solo, _ = run_impl(binary, [op], 'c13-solo')
+            if oracle(op, tags[i], solo[0]):
+                chosen, alone = (i, op, why), solo[0]
+                break
+        if chosen is None:
+            chosen = cands[0]
+        i, op, why = chosen
+        out.violation(f'{op}: {why} ({len(items)} generated calls of this kind)',
+                      {'kind': 'impl-oracle', 'ops': [op], 'tags': [tags[i]], 'observed': impl[i], 'observed_alone': alone, 'why': why,
+                       'finding_key': key, 'reproduces_alone': alone is not None,
+                       'same_kind': [o for _, o, _ in items][:10],
                        'how': 'python3 check.py C13 --replay <this file>'}, key=key)
     # 2. correspondence
     diffs = []
